@@ -343,7 +343,27 @@ fn link(o: &Ontology, m: &str, tids: &[Vec<u32>], table: &[u32], out: &mut Vec<S
         both_ends.extend(back);
     }
     let idx = linkage.indicies();
-    let cl3: Vec<(usize, usize, u32, usize)> = linkage.into_cluster().map(|c| (c.lhs(), c.rhs(), c.distance().to_bits(), c.len())).collect();
+    // the OWNED iterator: forward for the first half of the runs, from both ends for the other half
+    let cl3: Vec<(usize, usize, u32, usize)> = if (n + table.len()) % 2 == 0 {
+        linkage.into_cluster().map(|c| (c.lhs(), c.rhs(), c.distance().to_bits(), c.len())).collect()
+    } else {
+        let mut it = linkage.into_cluster();
+        let mut front: Vec<(usize, usize, u32, usize)> = vec![];
+        let mut back: Vec<(usize, usize, u32, usize)> = vec![];
+        loop {
+            match it.next() {
+                Some(c) => front.push((c.lhs(), c.rhs(), c.distance().to_bits(), c.len())),
+                None => break,
+            }
+            match it.next_back() {
+                Some(c) => back.push((c.lhs(), c.rhs(), c.distance().to_bits(), c.len())),
+                None => break,
+            }
+        }
+        back.reverse();
+        front.extend(back);
+        front
+    };
     out.push(format!("LINK {} n={} merges={}", m, n, cl.len()));
     for c in &cl {
         out.push(format!("M {} {} b32:{:08x} {}", c.0, c.1, c.2.to_bits(), c.3));
